@@ -144,6 +144,13 @@ def compare_case(t, loops, psts, asms, classes):
 def known_match(entry, rec):
     k = entry.get("key", {})
     kk = rec.get("key", rec)
+    if k.get("class") == "mixture_spurious_low_temperature_solution":
+        # narrow class: this call, a guess at >= min_factor x T_c,mix, and a returned temperature below half the guess-free one
+        try:
+            return (rec.get("what") == k["what"] and kk.get("factor", 0.0) >= k["min_factor"]
+                    and rec["with_guess"][0] < 0.5 * rec["without_guess"][0])
+        except Exception:
+            return False
     try:
         return all(kk.get(f) == v or (isinstance(v, float) and abs(kk.get(f, 1e300) - v) <= 1e-9 * abs(v)) for f, v in k.items())
     except Exception:
@@ -211,6 +218,29 @@ def run(ctx):
                         {"broken": "correspondence: cascade model vs hook trace (single call)", "call": s,
                          "model": {"log": mlog, "ok": mok}}, found_input=not c["ok"])
 
+    # ---- State::critical_point: trial-temperature cascade (public API only) and the acceptance test on every path
+    critm = named(tags, "CRIT")
+    n_crit = 0
+    for c in impl.get("crit_ties", []):
+        n_crit += 1
+        m = critm.get(c["name"])
+        if m is None:
+            V.violation(ctx, "no model output for %s" % c["name"], {"broken": "correspondence", "case": c}, found_input=False)
+            continue
+        mi = int(m[1]) if isinstance(m, tuple) and m[0] == "Some" else -1
+        if mi != c["observed"]:
+            V.violation(ctx, "State::critical_point(eos, None, None) of %s is not the first successful trial temperature: model %s, implementation %s "
+                        "(-1 = error, -2 = a state none of the trials returns; trials 300/700/500 K ok = %s)" % (c["system"], mi, c["observed"], c["trial_ok"]),
+                        {"broken": "correspondence: crit_none (trial cascade of State::critical_point) vs public API", "case": c}, found_input=True)
+    for f in impl.get("rejected_results", []):
+        e = next((e for e in known if known_match(e, f)), None)
+        if e is not None:
+            V.report_known(ctx, e)
+            continue
+        V.violation(ctx, "%s: %s" % (f["broken"], json.dumps(f["key"])[:220]),
+                    {"broken": "crit_accepted / accepted_only on the real code: a result returned on the guessed path does not pass the acceptance test "
+                               "of the guess-free path", "failing": f}, found_input=True)
+
     # ---- support search (H_unique; partial clause) — a failure is a violation of the property on the real code
     n_known = 0
     MAX_REPORT = 8      # individual VIOLATION lines per category; the rest is summarised in the last one
@@ -262,6 +292,8 @@ def run(ctx):
         "tie_driver_calls_by_driver": drivers,
         "tie_points_compared_exactly": n_events,
         "tie_single_solver_calls": n_single,
+        "tie_critical_point_trial_cascades": n_crit,
+        "results_failing_the_acceptance_test": len(impl.get("rejected_results", [])),
         "origin_differences_inside_class": len(all_notes),
         "partial": "H_unique (any two accepted results at the same point are equal) is not decided by proof; support search below",
         "support_search": {
